@@ -120,3 +120,56 @@ Proof.
         rewrite nth_error_app2 by lia. rewrite Nat.sub_diag. reflexivity.
       * apply Hn. simpl in Hj. lia.
 Qed.
+
+(* ---- C11: the order of the samples inside a step vector ----------------------- *)
+
+From Coq Require Import Permutation.
+
+Section TableOrder.
+  Variable V A : Type.
+  Variable empty : V -> A.
+  Variable add : A -> V -> A.
+  (* adding two samples in either order gives the same accumulator: true of count,
+     group, min and max exactly; of the floating-point sums only up to rounding *)
+  Hypothesis add_comm : forall a x y, add (add a x) y = add (add a y) x.
+
+  Notation acc := (acc A).
+
+  Lemma upd_nth_upd_nth_same (t : list acc) i f g :
+    upd_nth A (upd_nth A t i f) i g = upd_nth A t i (fun a => g (f a)).
+  Proof. revert i. induction t as [|x t IH]; intros i; simpl; [reflexivity|]. destruct i; simpl; [reflexivity|]. rewrite IH. reflexivity. Qed.
+
+  Lemma upd_nth_ext (t : list acc) i f g : (forall a, f a = g a) -> upd_nth A t i f = upd_nth A t i g.
+  Proof.
+    intros H. revert i. induction t as [|x t IH]; intros i; simpl; [reflexivity|].
+    destruct i; simpl; [rewrite H; reflexivity|rewrite IH; reflexivity].
+  Qed.
+
+  Lemma upd_nth_comm (t : list acc) i j f g : i <> j ->
+    upd_nth A (upd_nth A t i f) j g = upd_nth A (upd_nth A t j g) i f.
+  Proof.
+    revert i j. induction t as [|x t IH]; intros i j Hne; simpl; [reflexivity|].
+    destruct i, j; simpl; try reflexivity; try lia. rewrite IH by lia. reflexivity.
+  Qed.
+
+  Lemma add_sample_comm inputs (t : list acc) iv jv :
+    add_sample V A add inputs (add_sample V A add inputs t iv) jv =
+    add_sample V A add inputs (add_sample V A add inputs t jv) iv.
+  Proof.
+    unfold add_sample. destruct (Nat.eq_dec (nth (fst iv) inputs 0) (nth (fst jv) inputs 0)) as [E|NE].
+    - rewrite E, !upd_nth_upd_nth_same. apply upd_nth_ext. intros a. simpl. rewrite add_comm. reflexivity.
+    - apply upd_nth_comm. assumption.
+  Qed.
+
+  (* the table after a step does not depend on the order of the step vector's samples *)
+  Theorem aggregate_order_independent inputs param (old : list acc) vec vec' :
+    Permutation vec vec' ->
+    aggregate V A empty add inputs param old vec = aggregate V A empty add inputs param old vec'.
+  Proof.
+    intros HP. unfold aggregate. generalize (map (reset V A empty param) old). induction HP; intros t; simpl.
+    - reflexivity.
+    - apply IHHP.
+    - rewrite add_sample_comm. reflexivity.
+    - rewrite IHHP1. apply IHHP2.
+  Qed.
+End TableOrder.
